@@ -61,35 +61,83 @@ def coq_build(targets, timeout=1500):
     return rc == 0, out
 
 
+def _strip_comments(src):
+    res, depth, i = [], 0, 0
+    while i < len(src):
+        if src.startswith("(*", i):
+            depth += 1; i += 2; continue
+        if src.startswith("*)", i) and depth > 0:
+            depth -= 1; i += 2; continue
+        if depth == 0:
+            res.append(src[i])
+        elif src[i] == "\n":
+            res.append("\n")
+        i += 1
+    return "".join(res)
+
+
+EXTRACT_FORBIDDEN = re.compile(r"\b(Extract\s+(Inlined\s+)?Constant|Extract\s+Inductive|Extraction\s+(Implicit|Inline|NoInline|Blacklist))\b")
+
+
+def coq_dep_closure(dirs):
+    """area directories (relative to coq/) reachable from `dirs` through `Verif.<Area>` imports, plus their extract/<Area>.v"""
+    seen, todo = [], list(dirs)
+    while todo:
+        d = todo.pop()
+        if d in seen or not os.path.isdir(os.path.join(COQ, d)):
+            continue
+        seen.append(d)
+        for f in glob.glob(os.path.join(COQ, d, "*.v")):
+            code = _strip_comments(open(f).read())
+            areas = set(re.findall(r"\bVerif\.([A-Z][A-Za-z0-9_]*)\b", code))
+            for sent in re.findall(r"From\s+Verif\s+Require[^.]*?((?:\s+[A-Za-z0-9_.']+)+)\s*\.(?:\s|$)", code):
+                areas |= {w.split(".")[0] for w in sent.split() if "." in w}
+            for a in areas:
+                t = os.path.join("theories", a)
+                if t not in seen:
+                    todo.append(t)
+    files = []
+    for d in seen:
+        files += sorted(glob.glob(os.path.join(COQ, d, "**", "*.v"), recursive=True))
+        ex = os.path.join(COQ, "extract", os.path.basename(d) + ".v")
+        if os.path.exists(ex):
+            files.append(ex)
+    return sorted(set(files))
+
+
 def coq_forbidden_scan(dirs):
-    """grep audit; returns list of offending 'file:line: text'. Comments are stripped first."""
+    """audit of the property's areas, of every area they import (transitively) and of the extraction files: forbidden
+    constructs anywhere in a sentence (comments stripped), extraction directives beyond ExtrOcamlBasic, and
+    Variable/Hypothesis/Context outside a Section (Section / Module nesting tracked sentence by sentence).
+    Returns a list of offending 'file:line: text'."""
     bad = []
-    for d in dirs:
-        for f in sorted(glob.glob(os.path.join(COQ, d, "**", "*.v"), recursive=True) + glob.glob(os.path.join(COQ, d, "*.v"))):
-            src = open(f).read()
-            # strip comments (nested)
-            res, depth, i = [], 0, 0
-            while i < len(src):
-                if src.startswith("(*", i):
-                    depth += 1; i += 2; continue
-                if src.startswith("*)", i) and depth > 0:
-                    depth -= 1; i += 2; continue
-                if depth == 0:
-                    res.append(src[i])
-                elif src[i] == "\n":
-                    res.append("\n")
-                i += 1
-            code = "".join(res)
-            insec = 0
-            for n, line in enumerate(code.split("\n"), 1):
-                if FORBIDDEN.search(line):
-                    bad.append(f"{os.path.relpath(f, COQ)}:{n}: {line.strip()}")
-                if re.match(r"\s*Section\b", line):
-                    insec += 1
-                if re.match(r"\s*End\b", line) and insec > 0:
-                    insec -= 1
-                if insec == 0 and re.match(r"\s*(Variable|Variables|Hypothesis|Hypotheses|Context)\b", line):
-                    bad.append(f"{os.path.relpath(f, COQ)}:{n}: {line.strip()} (outside section)")
+    for f in coq_dep_closure(dirs):
+        code = _strip_comments(open(f).read())
+        rel = os.path.relpath(f, COQ)
+        for n, line in enumerate(code.split("\n"), 1):
+            if FORBIDDEN.search(line) or EXTRACT_FORBIDDEN.search(line):
+                bad.append(f"{rel}:{n}: {line.strip()}")
+        # sentence level: a vernacular sentence ends with '.' followed by white space
+        stack, pos = [], 0
+        for m in re.finditer(r"\.(\s+|$)", code):
+            sent = code[pos:m.start()]
+            n = code.count("\n", 0, pos + (len(sent) - len(sent.lstrip()))) + 1
+            pos = m.end()
+            head = sent.strip()
+            mm = re.match(r"(Section|Module\s+Type|Module|End|Variable|Variables|Hypothesis|Hypotheses|Context)\b\s*([A-Za-z0-9_']*)", head)
+            if not mm:
+                continue
+            kw = re.sub(r"\s+", " ", mm.group(1))
+            if kw == "Section":
+                stack.append("S")
+            elif kw in ("Module", "Module Type"):
+                if ":=" not in head:          # `Module X := F(Y).` opens nothing
+                    stack.append("M")
+            elif kw == "End":
+                if stack:
+                    stack.pop()
+            elif "S" not in stack:
+                bad.append(f"{rel}:{n}: {head[:80]} (outside section)")
     return sorted(set(bad))
 
 
